@@ -58,11 +58,11 @@ Outcome(c) ==
         converted |-> Converts(c) /\ RhsUnitOf(c) # PU(c.lu)]
 
 \* unary / scalar-argument operators
-UnOps == {"neg", "pow2", "pow3", "pow0", "powm1", "powm2", "sqrt", "rmul2", "rmulf", "rdiv2", "rdivf", "rdivnd", "rmulnd", "invert"}
+UnOps == {"neg", "pow2", "pow2nd", "pow3", "pow0", "powm1", "powm2", "sqrt", "rmul2", "rmulf", "rdiv2", "rdivf", "rdivnd", "rmulnd", "invert"}
 UnOutcome(op, i) ==
   LET u == PU(i) IN
   CASE op = "neg" -> [raises |-> FALSE, unit |-> Sparse(u), bool |-> FALSE]
-    [] op = "pow2" -> [raises |-> FALSE, unit |-> Sparse(UPow(u, 2)), bool |-> FALSE]
+    [] op \in {"pow2", "pow2nd"} -> [raises |-> FALSE, unit |-> Sparse(UPow(u, 2)), bool |-> FALSE]       \* pow2nd: the exponent is a 0-d ndarray
     [] op = "pow3" -> [raises |-> FALSE, unit |-> Sparse(UPow(u, 3)), bool |-> FALSE]
     [] op = "pow0" -> [raises |-> FALSE, unit |-> Sparse(Unit0), bool |-> FALSE]
     [] op = "powm1" -> [raises |-> FALSE, unit |-> Sparse(UPow(u, -1)), bool |-> FALSE]
